@@ -1,17 +1,22 @@
 import OcVerif.Util
 import OcVerif.Driver.Time
+import OcVerif.Driver.Queue
+import OcVerif.Driver.QConc
 /-!
 `ocmodel`: reads history lines `<comp> <id> : <body> => <implementation outputs>` on stdin,
 runs the Lean model on `<body>`, compares with the implementation's outputs and evaluates the
 executable specifications on the implementation's history. One result line per input line:
 
-  `R <comp> <id> agree=<0|1> spec=<Cxx:0|1,...> labels=<a,b> :: model=<...> :: impl=<...> :: detail=<...>`
+  `R <comp> <id> agree=<0|1> blame=<Cxx,..> spec=<Cxx:0|1,...> labels=<a,b> :: model=<...> :: impl=<...> :: detail=<...>`
 -/
 open Oc
 
 def dispatch (comp : String) : Option (String → String → Verdict) :=
   match comp with
   | "time" => some Driver.Time.drive
+  | "oq" => some Driver.Queue.driveOq
+  | "pq" => some Driver.Queue.drivePq
+  | "qconc" => some Driver.QConc.drive
   | _ => none
 
 def handle (line : String) : String :=
@@ -30,10 +35,14 @@ def handle (line : String) : String :=
     | none => s!"E {comp} {id} unknown-component"
     | some f =>
       let v := f body.trimAscii.toString impl
-      let agree := v.modelOut.trimAscii.toString == impl
+      let same := v.modelOut.trimAscii.toString == impl
+      let blamed : List String := if same then [] else match v.blame with
+        | some l => l
+        | none => v.spec.map (·.1)
+      let agree := blamed.isEmpty
       let spec := joinWith "," (v.spec.map fun (p, b, _) => s!"{p}:{boolStr b}")
       let detail := joinWith " ;; " ((v.spec.filter (fun x => !x.2.1)).map fun (p, _, d) => s!"{p}: {d}")
-      s!"R {comp} {id} agree={boolStr agree} spec={spec} labels={joinWith "," v.labels} :: model={v.modelOut} :: impl={impl} :: detail={detail}"
+      s!"R {comp} {id} agree={boolStr agree} blame={joinWith "," blamed} spec={spec} labels={joinWith "," v.labels} :: model={v.modelOut} :: impl={impl} :: detail={detail}"
   | _ => s!"E ? ? malformed-line"
 
 partial def loop (h : IO.FS.Stream) (out : IO.FS.Stream) : IO Unit := do
